@@ -32,7 +32,7 @@ PROPS = {
         "unit; only minimum-liquidity LP is held): those are not theorems. The inequality is also evaluated on the "
         "implementation's snapshots by the Coq monitor mon_C01 after every operation of every generated history (pools sharing "
         "denoms, LP denoms used as pool assets, donations, odd single-asset deposits, routes, faults).",
-        monitor="mon_C01"),
+        monitor="mon_C01s"),
     "C02": P("Props/C02.v", [("pool-scn", 48, 600), ("chain-pool", 32, 400), ("probe-scn", 15, 60)],
         "Constant product: proved (mint = min of the two proportional shares, never more than proportional in either asset, hence "
         "x*y/S^2 never decreases through a deposit; first deposit isqrt(a*b)); withdrawals (both pool types): the handler pays "
@@ -132,7 +132,7 @@ PROPS = {
         "included), ownership proposals and renouncements on all four contracts are accepted only from the current owner and only "
         "without funds; ownership changes only by accept-by-pending (before expiry) or renounce-by-owner; rejected => no state "
         "change; farm expansion / closing / position roles; pool manager's owner record untouched by any other message."),
-    "C16": P("Props/C16.v", [("pool-scn", 40, 500), ("chain-pool", 40, 500), ("probe-scn", 15, 60)], monitor="mon_C16", text=
+    "C16": P("Props/C16.v", [("pool-scn", 40, 500), ("chain-pool", 40, 500), ("probe-scn", 15, 60)], text=
         "Full proof: everything a successful CreatePool has checked (2 assets CP / 2-4 distinct assets + amp > 0 stableswap, "
         "decimals length, each fee < 100%, total <= 20%, identifier, fees paid exactly with no extra funds) and the only messages "
         "it emits; the new pool record; over ALL histories (induction over the chain interpreter, faults included) no pool is "
@@ -163,3 +163,9 @@ PROPS = {
 for _pid in ("C02", "C03", "C06", "C07", "C10", "C11", "C12", "C13"):
     PROPS[_pid]["extra_props"] = ["Props/Findings.v"]
 NOT_APPLICABLE = {}
+
+# decidable per-operation forms of the properties (coq/Model/Monitors.v), evaluated on the implementation's observed
+# snapshots: they turn a broken correspondence into a concrete failing history
+for _k, _m in {"C02": "mon_C02", "C03": "mon_C03", "C04": "mon_C04", "C06": "mon_C06", "C08": "mon_C08", "C11": "mon_C11",
+               "C14": "mon_C14", "C15": "mon_C15", "C16": "mon_C16", "C17": "mon_C17", "C20": "mon_C20"}.items():
+    PROPS[_k]["monitor"] = _m
